@@ -586,14 +586,94 @@ fn http_leg(rep: &mut Report) {
     rep.agg.merge(a);
 }
 
+/// The archive level: `Archive::chunk_stream` must end after the first error (no item follows
+/// it), and the CLI must hand `--http-retry-count` to the reader (a clone survives exactly that
+/// many cut transfers per run).
+fn archive_and_cli_leg(rep: &mut Report) {
+    use crate::clonelab::{build_arch, new_rt, Comp};
+    use crate::refchunk::Cfg;
+    let rt0 = new_rt();
+    let source = b"AAAABBBBCCCCDDDDEEEE".to_vec();
+    let arch = build_arch(&rt0, &Cfg::fixed(4), 64, &Comp::None, &source, 2).unwrap_or_else(|e| machinery(e));
+    let lab = HttpLab::new();
+    let mut agg = Agg::default();
+    let dir = crate::sched::scratch_dir("c08cli");
+    let out = dir.path().join("out.bin");
+    // (a) stream ends after the first error
+    for cut in 0..=3usize {
+        for budget in 0..=1u32 {
+            let faults: Vec<HF> = std::iter::repeat(HF::CutAfter(4 + cut)).take(budget as usize + 1).collect();
+            let mut script = vec![HF::None, HF::None];
+            script.extend(faults);
+            lab.server.arm(&arch.bytes, Script { faults: script, splits: vec![], keep_alive: false });
+            lab.pooled.set(false);
+            let reader = lab.reader(budget);
+            let r = catch(|| {
+                lab.rt.block_on(async {
+                    let mut archive = bitar::Archive::try_init(reader).await.map_err(|e| format!("{e}"))?;
+                    let idx = archive.build_source_index();
+                    let mut st = archive.chunk_stream(&idx);
+                    let mut seen_err = false;
+                    let mut after_err = 0usize;
+                    let mut n = 0usize;
+                    while let Ok(Some(item)) = tokio::time::timeout(std::time::Duration::from_secs(10), st.next()).await {
+                        n += 1;
+                        if seen_err {
+                            after_err += 1;
+                        }
+                        if item.is_err() {
+                            seen_err = true;
+                        }
+                        if n > 20 {
+                            break;
+                        }
+                    }
+                    Ok::<(bool, usize), String>((seen_err, after_err))
+                })
+            });
+            agg.add("chunk_stream_error_cases", 1);
+            match r {
+                Ok(Ok((true, 0))) => {}
+                Ok(Ok((seen, after))) => agg.viol("http:items-after-first-error", || json!({"leg": "archive-stream", "cut_after": 4 + cut, "retries": budget, "error_seen": seen, "items_after_error": after})),
+                Ok(Err(e)) => agg.viol("http:archive-open-failed", || json!({"leg": "archive-stream", "error": e})),
+                Err(p) => agg.viol("http:reader-panicked", || json!({"leg": "archive-stream", "panic": p})),
+            }
+        }
+    }
+    // (b) CLI wiring of the retry budget
+    for budget in 0..=3u32 {
+        for nfaults in 0..=4usize {
+            for fault in [HF::CutAfter(3), HF::Refuse] {
+                let mut script = vec![HF::None, HF::None];
+                script.extend(std::iter::repeat(fault.clone()).take(nfaults));
+                lab.server.arm(&arch.bytes, Script { faults: script, splits: vec![], keep_alive: false });
+                let _ = std::fs::remove_file(&out);
+                let args = crate::c04::cli_clone_args(&lab.server.url(), &out, &["--http-retry-count".to_string(), budget.to_string(), "--http-retry-delay".to_string(), "0".to_string()]);
+                let r = crate::c04::cli_clone(&lab.rt, args);
+                agg.add("cli_retry_cases", 1);
+                let want_ok = nfaults as u32 <= budget;
+                let got_ok = matches!(r, Ok(Ok(())));
+                let detail = || json!({"leg": "cli-retry", "fault": format!("{:?}", fault), "faults": nfaults, "retries": budget, "result": format!("{:?}", r), "requests": lab.server.log().iter().map(|l| l.range).collect::<Vec<_>>()});
+                if got_ok != want_ok {
+                    agg.viol(if got_ok { "http:clone-succeeded-beyond-retry-budget" } else { "http:clone-failed-within-retry-budget" }, detail);
+                } else if got_ok && std::fs::read(&out).unwrap_or_default() != source {
+                    agg.viol("http:wrong-bytes-delivered", detail);
+                }
+            }
+        }
+    }
+    rep.agg.merge(agg);
+}
+
 pub fn c08(rep: &mut Report) {
     local_leg(rep);
     http_leg(rep);
-    let ev = rep.agg.get("local_executions") + rep.agg.get("http_cases") + rep.agg.get("http_read_at_cases");
+    archive_and_cli_leg(rep);
+    let ev = rep.agg.get("local_executions") + rep.agg.get("http_cases") + rep.agg.get("http_read_at_cases") + rep.agg.get("chunk_stream_error_cases") + rep.agg.get("cli_retry_cases");
     rep.set("evaluations", json!(ev));
     rep.set("distinct_nontrivial", json!(rep.agg.distinct_count("local_outcomes") + rep.agg.distinct_count("http_outcomes")));
     rep.set("exhaustive", json!(rep.agg.get("local_capped_lists") == 0));
-    rep.set("rule", json!("local: IoReader over a scripted 12-byte file, all lists of <=2 (quick: + a slice of triples; thorough: all <=3) ranges over offsets {0,3,5,9} x sizes {1,3,4} (adjacent, gapped, overlapping, unordered, past EOF), read_at and read_chunks, every answer script with <= bound deviations from Full (Short(k) for every k, Pending at every poll of read / seek completion; complete tree for single ranges); http: HttpReader against a scripted loopback server, 8 range lists x every single/double body split x every fault sequence of <=2/3 faults from {Refuse, CutAfter(k) for all k} x retry budgets 0..3, oracle = reference model of the resuming retry loop (exact items, exact resume offsets in the request log, error iff faults exceed the budget or a body ends early); non-trivial = distinct (ranges, script) cases"));
+    rep.set("rule", json!("local: IoReader over a scripted 12-byte file, all lists of <=2 (quick: + a slice of triples; thorough: all <=3) ranges over offsets {0,3,5,9} x sizes {1,3,4} (adjacent, gapped, overlapping, unordered, past EOF), read_at and read_chunks, every answer script with <= bound deviations from Full (Short(k) for every k, Pending at every poll of read / seek completion; complete tree for single ranges); http: HttpReader against a scripted loopback server, 8 range lists x every single/double body split x every fault sequence of <=2/3 faults from {Refuse, CutAfter(k) for all k} x retry budgets 0..3, oracle = reference model of the resuming retry loop (exact items, exact resume offsets in the request log, error iff faults exceed the budget or a body ends early); archive level: Archive::chunk_stream yields nothing after its first error, and the real clone_cmd with --http-retry-count b survives exactly b cut or refused transfers per run (b in 0..3, 0..4 faults); non-trivial = distinct (ranges, script) cases"));
     rep.assume("zero-length ranges are outside C08 (valid archives never store empty chunks); they are judged under C15");
     rep.assume("A4: real loopback TCP; body fragmentation is scripted on the server (flush + 1.5 ms pause) and may be coalesced by the client's transport");
 }
